@@ -363,7 +363,9 @@ fn parse_v_model_directive(
 
 fn is_assignment_target(expr: &Expr) -> bool {
     match expr {
-        Expr::Ident(..) | Expr::Member(..) | Expr::SuperProp(..) => true,
+        // (`eval` and `arguments` can be read but not assigned to in a module)
+        Expr::Ident(ident) => ident.sym != "eval" && ident.sym != "arguments",
+        Expr::Member(..) | Expr::SuperProp(..) => true,
         Expr::Paren(ParenExpr { expr, .. })
         | Expr::TsAs(TsAsExpr { expr, .. })
         | Expr::TsNonNull(TsNonNullExpr { expr, .. })
@@ -404,10 +406,9 @@ fn parse_v_slots_directive(jsx_attr: &JSXAttr) -> Directive {
         Some(JSXAttrValue::JSXExprContainer(JSXExprContainer {
             expr: JSXExpr::Expr(expr),
             ..
-        })) => match &**expr {
-            Expr::Ident(..) | Expr::Object(..) => Some(expr.clone()),
-            _ => None,
-        },
+            // any expression: an object literal is merged entry by entry, everything else
+            // (`slots`, `this.slots`, `getSlots()`, `a ? b : c`) is spread beside `default`
+        })) => Some(expr.clone()),
         _ => None,
     };
     Directive::Slots(expr)
